@@ -8,4 +8,5 @@ CONSTANTS
 INVARIANT OrderInv
 INVARIANT ShapeInv
 INVARIANT StageFromSlot
+INVARIANT ConfInv
 CHECK_DEADLOCK FALSE
